@@ -167,7 +167,7 @@ PLANS["C15"] = {
     "k": [
         K("c15::stream1", note="p any double in [0,1]; 1 finite observation: len/is_empty/p()/quantile range after every add"),
         K("c15::lat_stream3", timeout=900, note="3 observations on the lattice i16/4, p on the 13-bit grid"),
-        K("c15::lat_stream5", timeout=1200, note="5 lattice observations; at the fifth: heights sorted, extremes = min/max, positions 1..5"),
+        K("c15::lat_stream5", tier="thorough", timeout=7200, note="5 lattice observations; at the fifth: heights sorted, extremes = min/max, positions 1..5"),
         K("c15::new_invalid", must_panic=True, allow_fail=NEW_PANIC, require_fail=NEW_PANIC, allow_panic=NEW_PANIC,
           note="Quantile::new(p) for every p outside [0,1] or NaN panics"),
         K("c15::stream2", tier="thorough", timeout=3600, note="2 full-double observations, p any double"),
@@ -298,6 +298,7 @@ def _mplan(prop, fn, funcs, bounds, outside, k=()):
 ROUNDING_OUT = ("accumulated floating-point rounding error for n > 4, off-lattice data and conditioning up to 1e12 (DESIGN.md section 3): "
                 "neither bit-blasting nor a (1+eps) model in NRA reaches it")
 
+LAT_NOTE = "x_i = OFF + k_i, |k_i| <= 4, exact integer oracle: mean, population and sample variance inside the section-3 envelope (linear in kappa)"
 _mplan("C01", "plan_c01", ["Mean/Variance: new, default, add (increment, add_inner), mean, len, is_empty, population_variance, sample_variance, "
                            "variance_of_mean, error, estimate"],
        ["M: inductive add-step for every n >= 0 and every real x; accessors on every exact summary; definitional streams of 1..5 (quick) / 1..7 (thorough) symbolic reals"],
@@ -383,3 +384,28 @@ _mplan("C20", "plan_c20", ["impl_from_iterator!/impl_extend! expansions for Mean
 _mplan("C15", "plan_c15", ["Quantile::{new, add, quantile, len, is_empty, p} (MIR)"],
        ["M: positions/extreme markers on every execution path of one add from any well-formed state; height ordering and middle marker within [min,max] as properties of "
         "the P-square update the code is shown to conform to (C05)"], [])
+
+# bit-precise envelope on integer lattices (catches algebraically equal but numerically unstable reformulations at n = 3)
+PLANS["C01"]["k"] += [
+    K("lat::variance3_off1e9", timeout=600, note="Variance, 3 adds, OFF = 1e9: " + LAT_NOTE),
+    K("lat::variance3_off0", timeout=600, note="Variance, 3 adds, OFF = 0"),
+    K("lat::mean3_off1e9", timeout=600, note="Mean, 3 adds, OFF = 1e9, |k| <= 100"),
+    K("lat::variance3_neg1e9", tier="thorough", timeout=1800, note="OFF = -1e9"),
+    K("lat::variance3_off1e12", tier="thorough", timeout=1800, note="OFF = 1e12"),
+    K("lat::variance3_off1e15", tier="thorough", timeout=1800, note="OFF = 1e15"),
+    K("lat::variance3_r8_off1e9", tier="thorough", timeout=3600, note="OFF = 1e9, |k| <= 8"),
+    K("lat::mean3_off1e15", tier="thorough", timeout=1800, note="Mean, OFF = 1e15"),
+]
+PLANS["C02"]["k"] += [
+    K("lat::merge3_off1e9", timeout=600, note="Variance: chunks of sizes (1,2) / (2,1) merged, OFF = 1e9: " + LAT_NOTE),
+    K("lat::merge3_off0", tier="thorough", timeout=1800, note="same, OFF = 0"),
+]
+PLANS["C03"]["k"] += [
+    K("lat::two_point_off1e9", timeout=600, note="two lattice points around 1e9: skewness 0 and kurtosis -2 within the envelope"),
+    K("lat::two_point_off0", tier="thorough", timeout=1800, note="same, OFF = 0"),
+]
+PLANS["C17"]["k"] += [
+    K("lat::merge3_off1e9", timeout=600, note="merged variance of lattice data at offset 1e9 stays inside the envelope (in particular non-negative)"),
+]
+for _p in ("C01", "C02", "C03"):
+    PLANS[_p]["meta"]["bounds"] = list(PLANS[_p]["meta"]["bounds"]) + ["K: integer lattice x_i = OFF + k_i (OFF in {0, 1e9} quick, up to 1e15 thorough; |k_i| <= 4), n = 3 (2 for skewness/kurtosis): bit-precise envelope"]
